@@ -150,6 +150,38 @@ Qed.
 Theorem text_canon_idem : forall d, text_canon (text_canon d) = text_canon d.
 Proof. intro d. apply text_canon_from_idem. Qed.
 
+(* canonical text: the output is canonical, canonical text is left unchanged (so binary and text signatures hash the
+   same octets exactly for documents whose line ends are all CR LF) *)
+Lemma text_canon_from_ok last d : crlf_okb last (text_canon_from last d) = true.
+Proof.
+  revert last. induction d as [|c r IH]; intro last; [reflexivity|]. cbn [text_canon_from].
+  destruct (N.eqb_spec c 10) as [->|Hc]; cbn [andb].
+  - destruct (N.eqb_spec last 13) as [->|Hl]; cbn [negb app crlf_okb N.eqb Pos.eqb orb andb]; [apply IH|].
+    rewrite IH. destruct (last =? 13); reflexivity.
+  - cbn [app crlf_okb]. replace (c =? 10) with false by lia. cbn [negb orb andb]. apply IH.
+Qed.
+Theorem text_canon_canonical : forall d, canonical_text (text_canon d) = true.
+Proof. intro d. apply text_canon_from_ok. Qed.
+
+Lemma text_canon_from_fixed last d : crlf_okb last d = true -> text_canon_from last d = d.
+Proof.
+  revert last. induction d as [|c r IH]; intros last H; [reflexivity|]. cbn [crlf_okb text_canon_from] in *.
+  apply andb_true_iff in H as [H1 H2]. rewrite (IH c H2).
+  destruct (c =? 10); cbn [negb orb andb] in *; [rewrite H1; reflexivity|reflexivity].
+Qed.
+Theorem text_canon_fixed : forall d, canonical_text d = true -> text_canon d = d.
+Proof. intro d. apply text_canon_from_fixed. Qed.
+
+(* version 3 document signatures: five fixed trailer octets, the hashed octets still determine data, type and time *)
+Theorem hash_input_v3_doc_inj : forall d1 d2 ty1 ty2 t1 t2, t1 < 4294967296 -> t2 < 4294967296 ->
+  hash_input_v3 (SoBinary d1) (sig_trailer_v3 ty1 t1) = hash_input_v3 (SoBinary d2) (sig_trailer_v3 ty2 t2) ->
+  d1 = d2 /\ ty1 = ty2 /\ t1 = t2.
+Proof.
+  intros d1 d2 ty1 ty2 t1 t2 H1 H2 H. unfold hash_input_v3, sig_trailer_v3 in H. cbn [signed_octets_v3 signed_octets_v4] in H.
+  apply app_inj_len_r in H as [Hd Ht]; [|reflexivity]. split; [assumption|].
+  unfold be4 in Ht. inversion Ht as [[Hty E3 E2 E1 E0]]. split; [reflexivity|]. apply be4_inj; try assumption. unfold be4. now rewrite E3, E2, E1, E0.
+Qed.
+
 (* ---------- validity ---------- *)
 Theorem validity_rules_iff : forall current creation expiration keycreation h,
   check_validity current creation expiration keycreation h = Valid <->
